@@ -636,6 +636,15 @@ func (h *H) apply1(line string) (string, bool) {
 			for _, x := range acc {
 				hdr["Accept"] = append(hdr["Accept"], mtRealOf(x)+";q=0.9")
 			}
+		case "spaceparam":
+			// optional whitespace around the semicolon of a parameter (RFC 9110), elements joined in one header
+			l := []string{}
+			for i, x := range acc {
+				l = append(l, mtRealOf(x)+[]string{" ;q=0.9", "\t; q=0.5", " ; q=1.0"}[i%3])
+			}
+			if len(l) > 0 {
+				hdr["Accept"] = []string{strings.Join(l, ", ")}
+			}
 		default:
 			for _, x := range acc {
 				hdr["Accept"] = append(hdr["Accept"], mtRealOf(x))
